@@ -480,6 +480,68 @@ macro_rules! kern_for_type {
     }};
 }
 
+// --------------------------------------------------------------------------------------- transpose level
+
+/// one `transpose_matrix::<T>` call: request `xpose <bits> <class> <width> <height> m:<data> m:<result before>`
+fn xpose_one<T: Bits>(class: &str, w: usize, h: usize, dlen: usize, rlen: usize, out: &mut Vec<String>) {
+    let data: Vec<T> = (0..dlen).map(|k| T::from_u64(k as u64 + 1)).collect();
+    let mut result: Vec<T> = (0..rlen).map(|k| T::from_u64(0xE0u64.wrapping_add(k as u64) & 0xFF)).collect();
+    let req = format!("xpose {:x} {} {:x} {:x} m:{} m:{}", T::W, class, w, h, hexlist(&data), hexlist(&result));
+    let ans = answer(|| {
+        cfavml_gemm::transpose::transpose_matrix(w, h, &data, &mut result);
+        format!("ok {}", hexlist(&result))
+    });
+    out.push(format!("{req}\t{ans}"));
+}
+
+fn xpose_cases(rng: &mut Rng, cases: usize, out: &mut Vec<String>) {
+    // every shape of a small square, then sampled larger / skewed shapes, then length mismatches
+    let small = 10 + cases.min(40);
+    let mut shapes: Vec<(usize, usize)> = vec![];
+    for w in 0..=small {
+        for h in 0..=small {
+            shapes.push((w, h));
+        }
+    }
+    for _ in 0..cases * 4 {
+        shapes.push((rng.below(48) as usize, rng.below(48) as usize));
+        shapes.push((1 + rng.below(3) as usize, 40 + rng.below(200) as usize));
+        shapes.push((40 + rng.below(200) as usize, 1 + rng.below(3) as usize));
+    }
+    for (k, &(w, h)) in shapes.iter().enumerate() {
+        let n = w * h;
+        // rotate the element type so that every shape meets every type over a few runs, and all of them in the small square
+        let all = k < (small + 1) * (small + 1);
+        let pick = (k + rng.below(8) as usize) % 8;
+        let want = |t: usize| all && (w <= 17 && h <= 17) || pick == t;
+        if want(0) { xpose_one::<f32>("f32", w, h, n, n, out); }
+        if want(1) { xpose_one::<u32>("u32", w, h, n, n, out); }
+        if want(2) { xpose_one::<i32>("other", w, h, n, n, out); }
+        if want(3) { xpose_one::<f64>("f64", w, h, n, n, out); }
+        if want(4) { xpose_one::<u64>("u64", w, h, n, n, out); }
+        if want(5) { xpose_one::<i64>("other", w, h, n, n, out); }
+        if want(6) { xpose_one::<u8>("other", w, h, n, n, out); }
+        if want(7) { xpose_one::<u16>("other", w, h, n, n, out); }
+    }
+    // mismatching lengths must panic, whatever the shape
+    for &(w, h) in &[(0usize, 0usize), (0, 5), (3, 3), (8, 8), (16, 16), (17, 9), (1, 7)] {
+        let n = w * h;
+        for &(dl, rl) in &[(n + 1, n + 1), (n + 1, n), (n, n + 1), (n.saturating_sub(1), n.saturating_sub(1)), (n, n.saturating_sub(1))] {
+            if dl == n && rl == n {
+                continue;
+            }
+            xpose_one::<f32>("f32", w, h, dl, rl, out);
+            xpose_one::<f64>("f64", w, h, dl, rl, out);
+            xpose_one::<u16>("other", w, h, dl, rl, out);
+        }
+    }
+    // products that overflow usize must panic (empty buffers)
+    for &(w, h) in &[(usize::MAX, 2usize), (1usize << 62, 4), ((1usize << 62) + 1, 4), (1usize << 32, 1usize << 32)] {
+        xpose_one::<f32>("f32", w, h, 0, 0, out);
+        xpose_one::<u8>("other", w, h, 4, 4, out);
+    }
+}
+
 pub fn main_emit(args: &[String]) -> i32 {
     let mut level = String::new();
     let mut seed = 1u64;
@@ -553,6 +615,7 @@ pub fn main_emit(args: &[String]) -> i32 {
             kern_for_type!(u32, U32_REDUCE1_XANY, U32_REDUCE2_XANY, U32_MAP2_XANY, U32_MAP1V_XANY, &mut rng, cases, out);
             kern_for_type!(u64, U64_REDUCE1_XANY, U64_REDUCE2_XANY, U64_MAP2_XANY, U64_MAP1V_XANY, &mut rng, cases, out);
         },
+        "xpose" => xpose_cases(&mut rng, cases, &mut out),
         other => {
             eprintln!("unknown level {other}");
             return 2;
